@@ -441,5 +441,14 @@ def replay(case):
     if "release" in case:
         r = [x for x in release_cases() if x[1]["release"] == case["release"]]
         return r or None
-    _, _, (verdict, obs, _) = run_one(case["kinds"], case["choices"])
+    # the recorded schedule up to its last deviation from the default choice (what follows are defaults, taken anyway); on a tree on which
+    # the requests take another path (one of them is refused, say) the schedule may not exist: that is "does not reproduce here", no error
+    ch = list(case["choices"])
+    while ch and ch[-1] == 0:
+        ch.pop()
+    try:
+        _, _, (verdict, obs, _) = run_one(case["kinds"], ch)
+    except sched.ReplayDivergence as e:
+        print("  note: the recorded schedule cannot be realised on this tree (%s): the violation does not reproduce" % e)
+        return None
     return verdict
